@@ -50,7 +50,7 @@ std::vector<M6> cov_catalogue() {
 
 std::vector<Eigen::Vector3d> attitudes() {
   std::vector<Eigen::Vector3d> v;
-  std::vector<double> rs = {0.0, 0.7, -2.5, 3.0}, ps = {0.0, 0.3, -1.2, M_PI / 2 - 1.5e-3, M_PI / 2 - 2e-3, -(M_PI / 2 - 4e-3), M_PI / 2 - 0.01}, ys = {0.0, 0.4, -3.0, 5.5};
+  std::vector<double> rs = {0.0, 0.7, -2.5, 3.0}, ps = {0.0, 0.3, -1.2, M_PI / 2 - 1.5e-3, M_PI / 2 - 2e-3, -(M_PI / 2 - 4e-3), M_PI / 2 - 0.01, 2.5, -2.0, 3.0}, ys = {0.0, 0.4, -3.0, 5.5};
   if (g_th) { for (double x : {M_PI / 2, -M_PI / 2, M_PI, 1e-9, -0.3, 6.2}) rs.push_back(x); for (double x : {-0.3, 0.9, 1.2, -1.5, 1.55, -(M_PI / 2 - 1.1e-3), M_PI / 2 - 3e-3, -(M_PI / 2 - 0.02)}) ps.push_back(x); for (double x : {M_PI / 2, -M_PI / 2, M_PI, -1e-9, 2.0, -6.0}) ys.push_back(x); }
   if (g_x) { for (int k = -6; k <= 6; ++k) { rs.push_back(0.45 * k + 0.013); ys.push_back(0.51 * k - 0.007); } for (int k = -12; k <= 12; ++k) ps.push_back(0.125 * k + 0.004); }
   for (double r : rs) for (double p : ps) for (double y : ys) v.push_back({r, p, y});
@@ -70,6 +70,9 @@ std::vector<Eigen::Affine3d> transforms() {
   Rs.push_back(Eigen::AngleAxisd(2.7, Eigen::Vector3d(-2, 1, 3).normalized()).toRotationMatrix());
   Rs.push_back((Eigen::AngleAxisd(1.1, Eigen::Vector3d::UnitX()) * Eigen::AngleAxisd(-0.7, Eigen::Vector3d::UnitY())).toRotationMatrix());
   if (g_th) for (Eigen::Vector3d ax : {Eigen::Vector3d(1, 0, 0), Eigen::Vector3d(0, 1, 0), Eigen::Vector3d(1, -1, 1), Eigen::Vector3d(0.1, -1, 0.2)}) for (double a : {1e-3, 1.0, -2.5, M_PI - 1e-3}) Rs.push_back(Eigen::AngleAxisd(a, ax.normalized()).toRotationMatrix());
+  // the 24 rotations of the cube (signed permutation matrices: sensor mounting transforms; several have a roll-pitch-yaw pitch of exactly +-pi/2)
+  { int perm[6][3] = {{0, 1, 2}, {0, 2, 1}, {1, 0, 2}, {1, 2, 0}, {2, 0, 1}, {2, 1, 0}};
+    for (auto& pm : perm) for (int sg = 0; sg < 8; ++sg) { Eigen::Matrix3d M = Eigen::Matrix3d::Zero(); for (int i = 0; i < 3; ++i) M(i, pm[i]) = (sg >> i) & 1 ? -1.0 : 1.0; if (M.determinant() > 0) Rs.push_back(M); } }
   // nearly planar and nearly identity transforms
   for (double tilt : {1e-9, 1e-6, 3e-4, 8e-4}) Rs.push_back((Eigen::AngleAxisd(0.4, Eigen::Vector3d::UnitZ()) * Eigen::AngleAxisd(tilt, Eigen::Vector3d(1, 0.5, 0).normalized())).toRotationMatrix());
   Rs.push_back(Eigen::AngleAxisd(1e-7, Eigen::Vector3d(-2, 1, 3).normalized()).toRotationMatrix());
@@ -205,7 +208,7 @@ void vf_run(uint64_t idx, const std::string& tier, vf::Ctx& c) {
 std::string vf_describe(const std::string& tier) {
   g_x = tier == "thorough";
   vf::JO o;
-  o.str("catalogue", "attitudes: 10 rolls x 15 pitches (down to 1.1e-3 rad from gimbal lock) x 10 yaws; 30 rotations (incl. nearly planar: yaw composed with a tilt of 1e-9..8e-4 rad, and a 1e-7 rad rotation) x 3 translations");
+  o.str("catalogue", "attitudes: 10 rolls x 18 pitches (down to 1.1e-3 rad from gimbal lock, and 2.5, -2, 3 beyond +-pi/2) x 10 yaws; 54 rotations (incl. the 24 rotations of the cube, nearly planar: yaw composed with a tilt of 1e-9..8e-4 rad, and a 1e-7 rad rotation) x 3 translations");
   if (g_x) o.str("thorough_extension", "attitudes: + 13 rolls, 25 pitches (step 0.125), 13 yaws; + 12 generic axes x 4 angles; ellipse axis every 0.25 deg");
   o.u("covariances", cov_catalogue().size()).u("attitudes", attitudes().size()).u("positions", positions().size()).u("transforms", transforms().size());
   o.str("covariance_catalogue", "Q diag(d) Q^T, d from 7 patterns over {0,1e-8,1e-4,1,..,1e4} (rank-deficient included), Q identity or a product of 15 Givens rotations (3 variants)");
